@@ -251,6 +251,9 @@ class Real:
         self._shared_ulists = {}
         self._shared_vlists = {}
         self._hooks = {}
+        for c in VCLS.values():
+            if c is not Vertex and "NEIGHBOR_CACHING" in vars(c):
+                del c.NEIGHBOR_CACHING
         return "ok"
 
     def vname(self, v):
@@ -651,10 +654,14 @@ class Real:
             if "edge_whitelist" in kw:
                 kw["edge_whitelist"] = {k: dict(v) for k, v in kw["edge_whitelist"].items()}
                 self.keep(kw["edge_whitelist"], *kw["edge_whitelist"].values())
-                if len(self.W) % 2 == 1:
+                import types
+                if len(self.W) % 4 in (1, 3):
                     # inner rule sets handed in as read-only VIEWS of dicts the caller still owns
-                    import types
                     kw["edge_whitelist"] = {k: types.MappingProxyType(v) for k, v in kw["edge_whitelist"].items()}
+                    self.keep(kw["edge_whitelist"])
+                if len(self.W) % 4 in (2, 3):
+                    # … or the whole table handed in as a read-only view of the caller's dict
+                    kw["edge_whitelist"] = types.MappingProxyType(kw["edge_whitelist"])
             return "ok W%d" % self.reg_w(UniverseLaws(**kw))
         if op == "edge":
             l = LCLS[toks[1]](self.pv(toks[2]), self.pv(toks[3]))
@@ -705,6 +712,10 @@ class Real:
             return "ok"
         if op == "flag":
             Vertex.NEIGHBOR_CACHING = toks[1] == "on"
+            return "ok"
+        if op == "cflag":
+            # caching switched on / off for ONE vertex class only (a class attribute of the subclass)
+            VCLS[toks[1]].NEIGHBOR_CACHING = toks[2] == "on"
             return "ok"
         if op == "linkft":
             a, c, b, dd = self.pv(toks[1]), toks[2], self.pv(toks[3]), toks[4] == "1"
